@@ -10,7 +10,7 @@ XStrings == { XS(<<97, 98>>), XS(<<60, 38, 62, 34, 39>>), XS(<<97, 10, 9, 98>>),
 XStringsCr == { XS(<<97, 13, 98>>), XS(<<97, 13, 10, 98>>) }        \* carriage return: must be written as a character reference
 XInts == { XU(0), XU(-1), XU(127), XU(-128), XU(65535), XU(2147483647), <<"int", FALSE, X8(0,0,0,0,238,107,40,0)>>,
            <<"int", FALSE, X8(255,255,255,255,255,255,255,255)>>, <<"int", TRUE, X8(128,0,0,0,0,0,0,0)>> }
-XFloats == { <<"f64", X8(63,248,0,0,0,0,0,0)>>, <<"f64", X8(192,2,0,0,0,0,0,0)>>, <<"f64", X8(0,0,0,0,0,0,0,0)>>, <<"f64", X8(64,144,0,0,0,0,0,0)>>,
+XFloats == { <<"f64", X8(63,211,51,51,51,51,51,52)>>, <<"f64", X8(63,248,0,0,0,0,0,0)>>, <<"f64", X8(192,2,0,0,0,0,0,0)>>, <<"f64", X8(0,0,0,0,0,0,0,0)>>, <<"f64", X8(64,144,0,0,0,0,0,0)>>,
              <<"f64", X8(63,208,0,0,0,0,0,0)>> }
 XScalars == { <<"bool", TRUE>>, <<"bool", FALSE>> } \cup XStrings \cup XInts \cup XFloats
 XDocs == { <<"map", <<<<XS(<<97>>), v>>>>>> : v \in XScalars \cup XStringsCr }
